@@ -199,6 +199,20 @@ int main() {
                 std::cout << "\ncscmap"; for (isize k = 0; k < map.rows(); k++) std::cout << " " << map(k);
                 std::cout << "\n";
             }
+            else if (c == "csc.istpraw") {
+                // A handed over as raw compressed arrays through Eigen::Map (what the C interface does): duplicates and unsorted rows possible
+                long r = t.nat(), cc = t.nat(), nnz = t.nat();
+                std::vector<int> outer, inner; std::vector<Q> vals((size_t) nnz, Q(1));
+                for (long i = 0; i <= cc; i++) outer.push_back((int) t.nat());
+                for (long i = 0; i < nnz; i++) inner.push_back((int) t.nat());
+                if (inner.empty()) inner.push_back(0);
+                if (vals.empty()) vals.push_back(Q(0));
+                RawS b = raw(t);
+                SMat C = sparse_of(b, false);
+                Eigen::Map<const SMat> A(r, cc, nnz, outer.data(), inner.data(), vals.data());
+                bool ok = sparse::is_transpose_pattern<Q, int>(A, C);
+                std::cout << "istp " << (ok ? 1 : 0) << "\n";
+            }
             else if (c == "ord.amd") {
                 RawS a = raw(t);
                 SMat A = sparse_of(a, true);
